@@ -180,6 +180,7 @@ fn hpx_uniq<T: Idx + num::CheckedAdd>(sink: &mut Sink, rng: &mut Rng, w: u32, th
         vals.iter().map(|x| x.to_string()).collect::<Vec<_>>().join(",")
       }));
       sink.emit(&format!("r_nuniq {} {} {}", w, d, fmt_ranges(&l)), &ans, true);
+      sink.emit(&format!("r_nuniq_it {} {} {}", w, d, fmt_ranges(&l)), &ans, true);
     }
   }
   let n = if thorough { 4000 } else { 400 };
@@ -212,6 +213,8 @@ fn hpx_uniq<T: Idx + num::CheckedAdd>(sink: &mut Sink, rng: &mut Rng, w: u32, th
       if vals.is_empty() { "_".to_string() } else { vals.iter().map(|x| x.to_string()).collect::<Vec<_>>().join(",") }
     }));
     sink.emit(&format!("r_nuniq {} {} {}", w, d, fmt_ranges(&l)), &ans, !l.is_empty());
+    // ... and exactly what the transliterated iterator (`UniqIter.run`) emits
+    sink.emit(&format!("r_nuniq_it {} {} {}", w, d, fmt_ranges(&l)), &ans, !l.is_empty());
   }
 }
 
